@@ -149,6 +149,7 @@ func TestVerif_C05_Leases(t *testing.T) {
 		stepdowns := 0
 		defer func() { w.tc.shutdown() }()
 		nontrivial := false
+		roleDeleted := false
 		restarts := 0
 		fail := func(sig, msg string) {
 			rec.Violation(rt, sig, map[string]any{"history": w.log}, "%s; history=%v", msg, w.log)
@@ -234,7 +235,7 @@ func TestVerif_C05_Leases(t *testing.T) {
 					if eff > 40*time.Minute {
 						eff = 40 * time.Minute
 					}
-					switch fairIndex(rt, "callerExplicitMax", 3) {
+					switch fairIndex(rt, "callerExplicitMax", 4) {
 					case 0:
 						data["explicit_max_ttl"] = "2h"
 					case 1:
@@ -242,6 +243,9 @@ func TestVerif_C05_Leases(t *testing.T) {
 						if eff > 25*time.Minute {
 							eff = 25 * time.Minute
 						}
+					case 2:
+						// a client that serialises its zero default: "no explicit maximum of my own", the role's stays
+						data["explicit_max_ttl"] = []string{"0", "0s"}[fairIndex(rt, "zeroSpelling", 2)]
 					default:
 						if data["explicit_max_ttl"] == "90m" {
 							data["explicit_max_ttl"] = "2h"
@@ -265,6 +269,17 @@ func TestVerif_C05_Leases(t *testing.T) {
 				w.leases = append(w.leases, l)
 				w.logf("token %s %v -> ttl %v", path, data, r.resp.Auth.TTL)
 				checkBound(l, r.resp.Auth.TTL, "issue", before)
+			},
+			// an operator removes one of the token roles (at most once per history): tokens handed out through it keep
+			// the limits they were handed out with, whether their renewal is refused or served
+			"role-delete": func(rt *rapid.T) {
+				if roleDeleted {
+					rt.Skip("a role was already removed")
+				}
+				name := []string{"c05max", "c05per"}[fairIndex(rt, "role", 2)]
+				r := w.tc.req(logical.DeleteOperation, "auth/token/roles/"+name, w.tc.root, nil)
+				w.logf("delete role %s -> %v", name, r)
+				roleDeleted = true
 			},
 			"renew": func(rt *rapid.T) {
 				l := pick(rt, func(l *c05Lease) bool { return true })
